@@ -1001,6 +1001,55 @@ pub fn beh_of_named(n: &[Named; 2]) -> Beh {
     [f(&n[0]), f(&n[1])]
 }
 
+/// The magnitude of the numbers an evaluation of this profile adds up: the largest
+/// |payoff| x chance reach x reach of ONE player's strategy (the other player is the one whose
+/// deviations are being valued, her probabilities count as one).  Tolerances scale with this, not
+/// with the largest payoff: a payoff of 1e308 behind a probability of 1e-308 is a number of size one.
+pub fn effective_scale(t: &T, beh: &Beh) -> f64 {
+    fn go(t: &T, beh: &Beh, r: [f64; 2]) -> f64 {
+        match t {
+            T::Term(p) => p.abs() * r[0].max(r[1]),
+            T::Chance(_, o) => {
+                let tot: f64 = o.iter().map(|(w, _)| *w).sum();
+                o.iter().map(|(w, c)| go(c, beh, [r[0] * (w / tot), r[1] * (w / tot)])).fold(0.0, f64::max)
+            }
+            T::Player(one, i, a) => {
+                let p = if *one { 0 } else { 1 };
+                if a.len() == 1 {
+                    return go(&a[0].1, beh, r);
+                }
+                let m = beh[p].get(i);
+                a.iter()
+                    .map(|(x, c)| {
+                        let pr = m.and_then(|m| m.get(x)).cloned().unwrap_or(0.0);
+                        // r[k] is the reach that leaves player k's own probabilities out
+                        let mut r2 = r;
+                        r2[1 - p] *= pr;
+                        go(c, beh, r2)
+                    })
+                    .fold(0.0, f64::max)
+            }
+        }
+    }
+    go(t, beh, [1.0, 1.0])
+}
+
+/// a payoff of astronomic size behind a probability of astronomically small size: chance (or the
+/// opponent) reaches a decision of player one with probability about 1e-308 (a subnormal number),
+/// where the stakes are about 1e308; everywhere else the game is ordinary
+pub fn needle(rng: &mut Rng) -> T {
+    let stake = *rng.pick(&[1e308, 4e307, 1e300]);
+    let tiny = *rng.pick(&[1e-308, 3e-309, 1e-300]);
+    let deep = T::Player(true, 1, vec![(0, T::Term(stake)), (1, T::Term(-stake * 0.5)), (2, T::Term(0.0))]);
+    let ordinary = T::Player(true, 2, vec![(0, T::Term(rng.unit())), (1, T::Player(false, 0, vec![(0, T::Term(rng.unit() * 2.0 - 1.0)), (1, T::Term(rng.unit() * 2.0 - 1.0))]))]);
+    if rng.chance(0.5) {
+        T::Chance(None, vec![(1.0, ordinary), (tiny, deep)])
+    } else {
+        // the opponent walks into the corner with two tiny probabilities in a row
+        T::Player(false, 5, vec![(0, ordinary), (1, T::Player(false, 6, vec![(0, T::Term(0.5)), (1, deep)]))])
+    }
+}
+
 /// expected payoff to player one; `pure[p]` (label -> action) overrides `beh[p]` when present
 pub fn ev_raw(t: &T, beh: &Beh, pure: &[Option<&BTreeMap<u32, u32>>; 2]) -> f64 {
     match t {
